@@ -27,8 +27,8 @@ TEXTS = {
         "technique": "Lean 4 proof over executable model + per-case contract evaluation + differential correspondence + re-scan oracle",
     },
     "C03": {
-        "text": "Lean theorems for the fixpoint lemmas (lower-casing, trimming, blank-line clamp, newline read-back, idempotence of the line-comment and compiler-directive rules and of the whole comment formatter); the composition relies "
-                "on wrapper contracts decided by a format-twice oracle on every well-formed case (partial). Known finding F10.",
+        "text": "Lean theorems for the fixpoint lemmas (lower-casing, trimming, blank-line clamp, newline read-back, idempotence of the line-comment and compiler-directive rules and of the whole comment formatter); mls_rewrite_idem / mls_token_idem (the multi-line string re-indenter is a fixpoint after one application). C03_format_full_checked: for the closed model of the whole formatter, if the output is another layout of the input's tokens in the sense of the layout theorem (layoutPremisesB cfg s out, decidable), formatting the output again returns it unchanged - a corollary of C06_format_full_checked. For inputs whose token texts are not yet normalised the composition relies "
+                "on the format-twice oracle on every well-formed case and on the full/wsearch correspondences (the model re-wraps exactly where the code does, stale child-line cache included) (partial). Known finding F10.",
         "design_ref": "DESIGN.md section 5 (C03)",
         "note": "Wrapper determinism and ReflowFresh are contracts, not theorems.",
         "technique": "Lean 4 proof of sub-claims + metamorphic oracle",
@@ -44,11 +44,10 @@ TEXTS = {
     "C06": {
         "text": "Lean theorems: whitespace reduction to counters, layout-invariance of TokenSpacing for all kind sequences "
                 "(spacing_layout_invariant: amount of blanks; spacing_space_or_break: a space and a line break with any indentation "
-                "are the same gap - true since repair b68b46e), blank-line clamp; translator obligation layout_is_read_only_at_known_sites (every read of a token's original whitespace, line-break count or the newline string in the parser and in every rule, regenerated from the Rust source on every run); end-to-end layout independence decided by formatting "
-                "pairs of re-layouts of the same program (partial).",
-        "design_ref": "DESIGN.md section 5 (C06)",
-        "note": "Non-interference of the parser and the wrapper are contracts checked by the pair oracle.",
-        "technique": "Lean 4 proof of sub-claims over executable model + metamorphic relayout oracle",
+                "are the same gap - true since repair b68b46e), blank-line clamp; translator obligation layout_is_read_only_at_known_sites (every read of a token's original whitespace, line-break count or the newline string in the parser and in every rule, regenerated from the Rust source on every run); C06_format_full_checked / C06_format_full_partial: for the closed model of the whole formatter (formatFull: scanner, parser control flow, consolidators, rules, wrapper stage with the search inside, reconstructor) two layouts of the same tokens are formatted to the same bytes whenever the decidable premise layoutPremisesB holds for the pair: same token types and texts, same blank-line grouping, identical bytes before verbatim tokens, GapEqW (a gap's emptiness matters only between a literal/unknown token and a token that can keep its spacing, and before the end-of-file token), same line-break flags after the first asm keyword, no line comment sharing its line with code, and every token written by a first-phase solution of the wrapper in the first run (fails exactly where the wrapper finds no solution: F34). No contract on parser or wrapper: the parser model reads line breaks only behind an asm keyword (parse_layout_independent, by construction of parseFileMasked), the search model reads tokens only through FTok.sview (kind, last-line length) and the configuration through Config.searchCfg (search_reads_views_only), and a relational proof carries two related token states through the whole wrapper stage (Proofs/LayoutStage, LayoutFull). The premise is evaluated by the driver on every pair of the relayout stream (full2: info_c06; holds on about 64 % of the random pairs, the rest is mostly the inline-comment restriction), next to the byte comparison of both model outputs with the real formatter and the relayout oracle on the real code.",
+        "design_ref": "DESIGN.md section 5 (C06), 12.8",
+        "note": "Partial: pairs with a line comment that shares its line with code, and lines without a wrapping solution (F34), are decided by the relayout oracle and the full2 correspondence only. The model is tied to the code by differential execution (full, full2, pfull, wsearch streams).",
+        "technique": "Lean 4 proof over the closed executable model (relational, unbounded) + per-pair premise evaluation + differential correspondence + metamorphic relayout oracle",
     },
     "C11": {
         "text": "Lean theorems about the idealised optimiser (argmin_shrink, antitone overflow penalty, fits-monotonicity), and a "
@@ -98,10 +97,10 @@ TEXTS = {
     },
     "C09": {
         "text": "Lean theorems: for fixed counters the crlf rendering equals the lf rendering with terminators substituted; every emitted "
-                "break is the configured newline; whitespace counters ignore CR. The lf/crlf and LF/CRLF-input relations are also checked "
+                "break is the configured newline; whitespace counters ignore CR. C09_format_full_crlf_config: for the closed model of the whole formatter (search inside) formatting with crlf gives exactly the lf result with each terminator substituted, under the decidable premise crlfOk computed from the lf run (every multi-line literal ends in a quote; both runs rewrite the same literals; nothing emitted verbatim holds a line break) - the search cannot see the line ending (Config.searchCfg, FTok.sview); mls_rewrite_crlf: the re-indenter's two results differ exactly by the substitution; counterexample theorems show each premise is needed. The premise is tallied on every case of the full stream (info_c09: holds on about 78 %). The lf/crlf and LF/CRLF-input relations are also checked "
                 "as oracles on the real formatter for every case.",
-        "design_ref": "DESIGN.md section 5 (C09)",
-        "note": "Independence of the wrapper's decisions from the newline string is an oracle-checked contract, not a theorem. Trusted: "
+        "design_ref": "DESIGN.md section 5 (C09), 12.8",
+        "note": "The input-ending clause (LF vs CRLF input) is decided by the oracle, not by a theorem; known findings F25, F35. Trusted: "
                 "Lean kernel, translator, harness, model.",
         "technique": "Lean 4 proof over executable model + differential correspondence + metamorphic oracle",
     },
@@ -118,15 +117,14 @@ TEXTS = {
         "text": "Lean theorems on the exact model of the multi-line string re-indenter (line-by-line specification: values unchanged, exact "
                 "indentation, configured terminators, rejection rule, untouched when off/ignored; re-indentation changes blanks only: mls_only_blanks_change; reading the new lines relative to the new indentation gives back the old values: mls_values_preserved). The model is checked against the "
                 "wrapper stage's before/after token contents on every case and a per-literal value oracle runs on the real formatter "
-                "over a targeted family (3/5/7 quotes, LF/CR/CRLF, tab/space/U+3000/control indentation, short/blank/over-indented lines).",
-        "design_ref": "DESIGN.md section 5 (C12)",
-        "note": "The splitting of a literal into lines (lines_custom) is modelled and differentially checked, its declarative "
-                "characterisation is not yet a theorem. Trusted: Lean kernel, translator, harness, model.",
+                "over a targeted family (3/5/7 quotes, LF/CR/CRLF, tab/space/U+3000/control indentation, short/blank/over-indented lines). End to end from mlsRewrite (Proofs/MlsMore): mls_indent_exact / mls_indent_exact_lines (after rewriting, the closing quotes and every non-empty interior line start with exactly ind indentation units and cont continuation units), mls_value_full (the literal's value, defined independently of the rewriter, is unchanged), mls_rewrite_idem (a second application changes nothing), mls_still_one_token (the rewritten text still scans as one multi-line literal), lines_custom_splits_at_terminators; counterexample theorems for each hypothesis.",
+        "design_ref": "DESIGN.md section 5 (C12), 12.8",
+        "note": "Hypothesis 'the literal ends in a quote' is discharged from the scanner side by mls_token_ends_quote. Trusted: Lean kernel, translator, harness, model.",
         "technique": "Lean 4 proof over executable model + differential correspondence + direct oracle",
     },
     "C15": {
         "text": "Lean theorems on the exact cursor model (checked arithmetic): offset_for_token is the true offset, same-offset-in-same-token, "
-                "past-the-end, cursor state never read by format; the known underflow is a decide-checked witness. Model vs implementation "
+                "past-the-end, cursor state never read by format; the known underflow is a decide-checked witness. Input side and end to end (Proofs/CursorProps2): processCursor_in_token (a cursor at offset o of token k is attached to token k at offset o; the boundary case sticks to the previous token: cursor_at_token_start_sticks), cursor_in_unchanged_token(_true) (reported at start'(k)+o, which is the true position of the token's text in the output), the same for multi-line tokens with lines below 2^16 bytes, cursor_in_bounds_partial / cursor_in_bounds_lf (every reported cursor lies within the output, except for an ignored token's blank lines under crlf: counterexample theorem cursor_in_bounds_fails_ignored_crlf = known finding F11, reproduced on the binary), cursor_whitespace_in_gap. Model vs implementation "
                 "compared on all character boundaries of small inputs and random cursor lists on large ones.",
         "design_ref": "DESIGN.md section 5 (C15)",
         "note": "Known findings F3, F7, F11, F16. Trusted: Lean kernel, translator, harness, model.",
@@ -164,7 +162,7 @@ TEXTS = {
     "C13": {
         "text": "Machine-checked Lean 4 theorems on an exact model of the lexer: totality (lex_total), all boundaries on character boundaries (lex_char_boundaries), losslessness, single last end-of-file token, blank-only "
                 "leading whitespace, non-blank token starts, AVX2 identifier routine = scalar routine for every input, keyword lookup = "
-                "table specification for every word, position independence (scan_is_position_independent: a token does not depend on what follows it beyond three bytes); all for inputs of any length. The model is tied to DelphiLexer::lex by "
+                "table specification for every word, position independence (scan_is_position_independent: a token does not depend on what follows it beyond three bytes); declarative specifications of the sub-scanners proved for every input (Proofs/LexSpecs): ident_maximal_munch (longest run of identifier bytes, stopping before U+3000), line_comment_spec, block_comment_spec (first closer; kind from the line break and the first-on-line flag), decimal/hex/binary_number_spec (digits, optional fraction only before a digit, optional exponent; maximal), string_literal_spec (item grammar of quoted segments and character codes; multi-line literals end at the first matching quote run), keyword_case_insensitive, and token-level forms (word/decimal/text/comment_token_spec); all for inputs of any length. The model is tied to DelphiLexer::lex by "
                 "token-by-token differential execution on every run.",
         "design_ref": "DESIGN.md section 5 (C13)",
         "note": "Trusted: Lean kernel (axioms propext, Classical.choice, Quot.sound only), the translator of the keyword/dispatch tables, "
